@@ -60,3 +60,23 @@ Definition rng_fill_digits (w : Z) (dest : list Z) (rng : stream) : res (drawn (
   | None => Done None
   | Some (bs, rest) => Done (Some (digits_of_bytes w (length dest) bs, rest))
   end.
+
+(* ---- Fill for Slice<$BUint<N>> / Slice<$BInt<N>> ---- *)
+
+(* core::mem::size_of::<$BUint<N>>() = size_of::<$BInt<N>>(): N digits of w/8 bytes, no padding (Random.BYTES) *)
+Definition size_of_bnum (w N : Z) : Z := Z.of_nat (BYTES w (Z.to_nat N)).
+
+(* `rng.try_fill_bytes(unsafe { from_raw_parts_mut(slice.as_mut_ptr() as *mut u8, k) })?` where slice : [$BUint<N>] (or [$BInt<N>]):
+   the first k bytes of the slice's memory - element after element, digit after digit, every digit in the byte order of the
+   (little-endian) target - are overwritten by the generator's next k bytes, in ONE request.  MODELLED ONLY for k = the size of
+   the whole slice (then element j is the little-endian reading of bytes [j * size, (j+1) * size): Random.digits_of_bytes, as in
+   Random.try_fill_slice); any other k is outside the model: `Panicked`, and the tie theorem shows that it does not occur.
+   A generator that runs dry makes `?` return the error: None. *)
+Definition rng_fill_raw (w N : Z) (slice : list (list Z)) (k : Z) (rng : stream) : res (drawn (list (list Z))) :=
+  let sz := BYTES w (Z.to_nat N) in
+  if k =? Z.of_nat (length slice * sz) then
+    match try_fill_bytes (length slice * sz) rng with
+    | None => Done None
+    | Some (bs, rest) => Done (Some (map (digits_of_bytes w (Z.to_nat N)) (chunks sz (length slice) bs), rest))
+    end
+  else Panicked.
